@@ -53,6 +53,10 @@ mention and that therefore must not change the number of executions:
       bystanders: n           n unrelated tasks (other name, other ids, really awaiting) are kicked through the same broker
                               right before the send and run interleaved with the attempts
       (ack, ackable, P, N, wtt, cli, via, fresh do not exist on that path and are ignored)
+  wall: {"base", "mono0", "scope", "plan"}   the HOST'S WALL CLOCK (time.time()) as the code under test reads it is scripted and may
+                              step backwards / forwards / be set / stand still WHILE AN ATTEMPT RUNS (NTP step correction, VM
+                              restore, `date -s`, coarse clock tick) - see WallClock.  The statement does not mention the clock:
+                              no observation may change.  Both paths (scripted and inmem).
 Nothing of /repo is edited or re-implemented: the env only chooses which real objects are built and how they are called.
 
 "typed" (optional, see harness/retry_typed.py): the task function has annotated parameters (pydantic models with constant /
@@ -68,9 +72,11 @@ import importlib
 import inspect
 import json
 import pkgutil
+import sys
 import time as _time
 
 import labels_driver as LD
+import patchall
 import retry_typed as RT
 import vloop
 from taskiq import Context, SimpleRetryMiddleware, TaskiqDepends, TaskiqMiddleware
@@ -367,28 +373,144 @@ def _raise_chained(exc, chain):
     raise exc
 
 
-# taskiq.task.wait_result / taskiq.funcs.gather measure their timeout with the wall clock (`from time import time`) while they
-# sleep on the event loop; on the virtual-time loop the wall clock does not move with the sleeps.  The module global `time` of
-# those two modules (only if it is time.time) is replaced by the virtual clock while a VLoop runs.
-def _vtime():
+# ------------------------------------------------------------------ the host's wall clock
+# taskiq reads the wall clock (`from time import time`): Receiver.run_task measures an attempt's duration with it (begin reading
+# before the dependencies are resolved, end reading after the body returned / raised), taskiq.task.wait_result / taskiq.funcs.gather
+# measure their timeout with it while they sleep on the event loop.  On the virtual-time loop the real wall clock does not move
+# with the sleeps, so ONE stand-in is put in BY IDENTITY wherever a module of the package bound time.time (under whatever name, in
+# whatever module: harness/patchall.replace_everywhere).  What it reads:
+#   * a case with env["wall"]: the scripted WallClock of that case - `loop time + offset`, and the offset is the case's to change;
+#   * any other case on a VLoop: the loop's virtual time (a well-behaved clock that moves with the sleeps);
+#   * no VLoop running: the real clock.
+_REAL_TIME = _time.time
+_WALL = [None]          # the WallClock of the case that is running
+FREEZE_CAP = 0.02       # a clock that "stands still" does so for at most this much virtual time (a coarse tick, not a dead clock:
+                        # wait_result / gather poll the wall clock for their timeout and would never return under a dead one)
+
+
+def _wall():
+    wc = _WALL[0]
+    if wc is not None:
+        return wc.read()
     try:
         loop = asyncio.get_running_loop()
     except RuntimeError:
-        return _time.time()
-    return loop.time() if isinstance(loop, vloop.VLoop) else _time.time()
+        return _REAL_TIME()
+    return loop.time() if isinstance(loop, vloop.VLoop) else _REAL_TIME()
+
+
+_NMODS = [0]
 
 
 def _install_clock():
-    for name in ("taskiq.task", "taskiq.funcs"):
-        try:
-            m = importlib.import_module(name)
-        except Exception:  # noqa: BLE001
-            continue
-        if getattr(m, "time", None) is _time.time:
-            m.time = _vtime
+    """(again whenever modules were imported since: a module of the package loaded later binds the real time.time)"""
+    if _NMODS[0] != len(sys.modules):
+        patchall.replace_everywhere(_REAL_TIME, _wall)
+        _NMODS[0] = len(sys.modules)
 
 
 _install_clock()
+
+
+class WallClock:
+    """the host's wall clock as the code under test reads it - NOT the loop clock: the loop's monotonic virtual time goes on
+    driving sleeps, timers and wait_for; the wall clock is `loop time + offset` and the offset can be changed under the code's feet.
+    spec = env["wall"]:
+      base    the reading when the run starts (seconds since the epoch; default 1.7e9)
+      mono0   what the loop's monotonic clock reads then (arbitrary on a real host; run_env / run_inmem start the VLoop there)
+      scope   "bound" (default): every place where the package bound time.time reads this clock;  "global": additionally
+              time.time itself, for the duration of the run (code that says `import time; time.time()` at call time, logging)
+      plan    [op | None, ...]: plan[i] = what happens to the host's clock while the i-th invocation of the task body (in the order
+              the bodies start) is under way - i.e. AFTER Receiver.run_task took its begin reading and BEFORE it takes the end one:
+                {"step": s}     the clock jumps by s seconds; s < 0 = backwards
+                {"set": v}      the clock is set to the absolute value v and goes on running
+                {"freeze": 1}   the clock stands still (equal readings) until this delivery is over, at most FREEZE_CAP
+              with "late": true the event happens right before the body acts (after its pause, if it has one) instead of at its
+              first statement.  The event is tied to the BODY (the driver's own code), not to who reads the clock.
+    The clock is host-wide: bystander executions and overlapping attempts see each other's steps.  Nothing here says what the
+    code under test should do with the readings; `log` = the events that really happened (attempt, stage, reading before / after)."""
+
+    def __init__(self, loop, spec):
+        self.loop = loop
+        self.off = float(spec.get("base", 1.7e9)) - loop.time()
+        self.plan = list(spec.get("plan") or [])
+        self.frozen_at, self.fval = None, 0.0
+        self.n, self.fired, self.log, self.durations = -1, set(), [], []
+
+    def read(self):
+        if self.frozen_at is not None:
+            if self.loop.time() - self.frozen_at <= FREEZE_CAP:
+                return self.fval
+            self.release()
+        return self.loop.time() + self.off
+
+    def release(self):
+        if self.frozen_at is not None:
+            self.off = self.fval - self.loop.time()         # the clock goes on from where it stood
+            self.frozen_at = None
+
+    def _set(self, v):
+        v = float(v)
+        if self.frozen_at is not None:
+            self.fval = v
+        self.off = v - self.loop.time()
+
+    def body_starts(self):
+        self.n += 1
+        self.tick("start")
+
+    def tick(self, stage):
+        op = self.plan[self.n] if 0 <= self.n < len(self.plan) else None
+        if not op or self.n in self.fired or (stage == "late") != bool(op.get("late")):
+            return
+        self.fired.add(self.n)
+        before = self.read()
+        if "step" in op:
+            self._set(before + float(op["step"]))
+        elif "set" in op:
+            self._set(op["set"])
+        elif op.get("freeze"):
+            if self.frozen_at is None:
+                self.fval = before
+            self.frozen_at = self.loop.time()
+        self.log.append([self.n, stage, float(before).hex(), float(self.read()).hex()])
+
+    def watch(self, backend):
+        """note the measured duration of every result handed to `backend` (instance attribute around the bound set_result; the
+        wrapper awaits the real one and adds no suspension point)"""
+        real, durations = backend.set_result, self.durations
+
+        async def set_result(task_id, result):
+            durations.append(float(result.execution_time).hex())
+            return await real(task_id, result)
+
+        backend.set_result = set_result
+
+    def observed(self):
+        return {"events": self.log, "planned": len([op for op in self.plan if op]), "bodies": self.n + 1, "durations": self.durations}
+
+
+def wall_of(env, loop, backends):
+    """install the case's wall clock (None: the case has none); undo with wall_off"""
+    _install_clock()
+    spec = env.get("wall")
+    if not spec:
+        return None
+    wc = _WALL[0] = WallClock(loop, spec)
+    for b in backends:
+        wc.watch(b)
+    if spec.get("scope") == "global":
+        _time.time = _wall          # (the stand-in itself: whoever binds it meanwhile holds what replace_everywhere puts in anyway)
+    return wc
+
+
+def wall_off():
+    _WALL[0] = None
+    _time.time = _REAL_TIME
+
+
+def mono0_us(env):
+    return int(float((env.get("wall") or {}).get("mono0", 0)) * 1_000_000)
 
 
 class ChildMixin:
@@ -615,8 +737,15 @@ def make_body(scen, env, typed=None):
         if hasattr(scen, "attempt_of"):         # InMemScenario: which delivery this body invocation belongs to
             rec["attempt"] = scen.attempt_of(ctx.message)
         scen.body_log.append(rec)
+        if _WALL[0] is not None:
+            _WALL[0].body_starts()      # the host's clock may change now: the attempt is under way
+
+    def late():
+        if _WALL[0] is not None:
+            _WALL[0].tick("late")
 
     def perform(act):
+        late()
         if act == "fail":
             raise ValueError("planned failure")
         if act == "fail_falsy":
@@ -629,6 +758,7 @@ def make_body(scen, env, typed=None):
 
     async def aperform(act):
         await pause(env.get("pause"))
+        late()
         if act == "hang":
             await asyncio.sleep(3600)
             return "late"
@@ -734,10 +864,14 @@ class EnvReceiver:
                 await asyncio.sleep(0)
                 acks.append("async")
             msg = AckableMessage(data=data, ack=ack)
-        if self.env.get("via") == "listen":
-            await self.listen_once(recv, msg)
-        else:
-            await recv.callback(message=msg, raise_err=False)   # exactly what Receiver.runner does
+        try:
+            if self.env.get("via") == "listen":
+                await self.listen_once(recv, msg)
+            else:
+                await recv.callback(message=msg, raise_err=False)   # exactly what Receiver.runner does
+        finally:
+            if _WALL[0] is not None:
+                _WALL[0].release()      # a clock that stood still runs again when the delivery is over
 
     async def listen_once(self, recv, msg):
         """one real listen() session whose broker delivers exactly this message and then ends its stream"""
@@ -969,6 +1103,8 @@ class InMemScenario:
                     raise
                 finally:
                     _ATTEMPT.reset(tok)
+                    if _WALL[0] is not None:
+                        _WALL[0].release()
                     st["done"] = True
                     scen.pending -= 1
                     if not scen.pending:
@@ -1064,6 +1200,7 @@ def run_inmem(lc, case, opts):
     async def main(loop):
         loop.set_exception_handler(lambda lp, c: None)      # a delivery that raises is noted per attempt; nobody awaits its task
         sc = InMemScenario(lc, uid, env, typed)
+        wc = wall_of(env, loop, [sc.backend])
         try:
             if env.get("startup"):
                 await sc.broker.startup()
@@ -1092,6 +1229,7 @@ def run_inmem(lc, case, opts):
                 rec["chain"], index = sc.chain(m.task_id)
                 settled = await sc.settled(m.task_id, index, quiet)
         finally:
+            wall_off()
             if env.get("startup"):
                 await sc.broker.shutdown()
             else:
@@ -1099,10 +1237,13 @@ def run_inmem(lc, case, opts):
         if sc.failures.errors:
             raise RuntimeError("harness: %s" % sc.failures.errors)
         return {"names": sc.names, "sent": [rec], "final": sc.snapshot(), "acks": [], "raised_log": sc.failures.log,
-                "typed_expect": expect, "typed_src": sc.typed_src, "teardown": list(sc.teardown), "cli_kw": None, "settled": settled,
+                "wall": wc.observed() if wc is not None else None, "typed_expect": expect, "typed_src": sc.typed_src, "teardown": list(sc.teardown), "cli_kw": None, "settled": settled,
                 "other_str": {k: [ord(c) for c in str(LD.dec({"t": "other", "k": k}))] for k in LD.OTHER_KINDS}}
 
-    return vloop.run(main)
+    try:
+        return vloop.run(main, mono0_us(env))
+    finally:
+        wall_off()
 
 
 _UID = [0]
@@ -1123,6 +1264,7 @@ def run_env(lc, case, opts):
 
     async def main(loop):
         sc = EnvScenario(lc, uid, env, cli_kw, typed)
+        wc = wall_of(env, loop, [b.result_backend for b in sc.brokers])
         k = sc.tasks[0].kicker()
         k.with_task_id("c0")
         args, kwargs, expect = op["args"], op["kwargs"], None
@@ -1145,16 +1287,20 @@ def run_env(lc, case, opts):
         if sc.failures.errors:
             raise RuntimeError("harness: %s" % sc.failures.errors)
         return {"names": sc.names, "sent": [rec], "final": sc.snapshot(), "acks": list(sc.acks), "raised_log": sc.failures.log,
-                "typed_expect": expect, "typed_src": sc.typed_src,
+                "wall": wc.observed() if wc is not None else None, "typed_expect": expect, "typed_src": sc.typed_src,
                 "teardown": list(sc.teardown), "cli_kw": None if cli_kw is None else {k: repr(v) for k, v in sorted(cli_kw.items())},
                 "other_str": {k: [ord(c) for c in str(LD.dec({"t": "other", "k": k}))] for k in LD.OTHER_KINDS}}
 
-    return vloop.run(main)
+    try:
+        return vloop.run(main, mono0_us(env))
+    finally:
+        wall_off()
 
 
 def run_case(case, opts):
     if case.get("enumerate_excs"):
         return enumerate_taskiq_exceptions()
+    _install_clock()
     env = case.get("env")
     fail_act = FAIL_ACT[(env or {}).get("fail_by", "raise")]
     lc = dict(ser=case.get("ser", "json"), mw=dict(case["mw"], enabled=True), repeat_last=True, guard=case.get("guard", 40),
@@ -1180,6 +1326,8 @@ def run_case(case, opts):
                final_task_labels=o["final"][0], other_str=o["other_str"])
     if not plain:
         out.update(acks=o["acks"], teardown=o["teardown"], cli_kw=o["cli_kw"], raised_log=o["raised_log"])
+        if o.get("wall") is not None:
+            out["wall"] = o["wall"]
     if case.get("typed") is not None:
         out.update(typed_expect=o["typed_expect"], typed_src=o["typed_src"])
     if inmem:
